@@ -1,6 +1,7 @@
 import CuqiVerif.Model.Proto
 import CuqiVerif.Model.C11
 import CuqiVerif.Model.C11_geom
+import CuqiVerif.Model.C11_gibbs
 open CuqiVerif CuqiVerif.Proto CuqiVerif.C11
 
 /-!
@@ -87,7 +88,7 @@ def resolve (results : Array Res) (s : String) : Option Nat :=
       | _ => none
   | _ => none
 
-inductive POp | op (o : Op) | gibbs (a : Nat) (sweeps : Nat) | skip | cfg
+inductive POp | op (o : Op) | gibbs (a : Nat) (sweeps : Nat) | sampler (a : Nat) (hybrid : Bool) (nb ns : Nat) | skip | cfg
 
 def parseOp (results : Array Res) (s : String) : Option POp :=
   match s.splitOn ":" with
@@ -106,6 +107,10 @@ def parseOp (results : Array Res) (s : String) : Option POp :=
   -- configuration step of the harness (`enable_FD` / `disable_FD`): not an operation of the property; no modelled
   -- operation reads or writes the finite-difference option, so the heap is unchanged
   | ["F", _, _] => some .cfg
+  -- a real sampler run: `S:<obj>:<L|H>:<Nb>:<Ns>` (legacy Gibbs / HybridGibbs constructor + warmup + sampling)
+  | ["S", o, kind, nb, ns] => (match resolve results o, nb.toNat?, ns.toNat? with
+                               | some a, some b, some n => if kind = "L" then some (.sampler a false b n) else if kind = "H" then some (.sampler a true b n) else none
+                               | none, some _, some _ => some .skip | _, _, _ => none)
   | ["G", o, n] => (match resolve results o, n.toNat? with
                     | some a, some k => some (.gibbs a k) | none, some _ => some .skip | _, _ => none)
   | _ => none
@@ -163,6 +168,25 @@ def stepOp (n0 : Nat) (fp0 : List String) (acc : PAcc) (txt : String) : PAcc :=
       | .obj a => if a < acc.s.size then acc.made else (a, s1.size, (fp s1.size fuel s1 a).toString) :: acc.made
       | _ => acc.made
     { acc with s := s1, results := acc.results.push r, outs := acc.outs.push (describe n0 fp0 acc.s s1 r), made := made }
+  | some (.sampler a hybrid nb ns) =>
+    -- the stream the sampler issues; the "values" are the chain indices of the samples passed (Gauss-Seidel order)
+    let (s1, r) := acc.s.run (.cond a [])
+    match r with
+    | .obj t =>
+      let pars := s1.targetParNames t
+      let ver := if hybrid then versionHybrid pars else versionLegacy pars
+      let val := fun k p q => (ver k p q : Int)
+      let (s2, _) := if hybrid then acc.s.hybridGibbs a nb ns val else acc.s.legacyGibbs a nb ns val
+      let nsw := (if hybrid then 1 else 0) + nb + ns
+      let calls := (List.range nsw).flatMap (fun k => pars.map (fun p =>
+        s!"{p}>" ++ ".".intercalate ((pars.filter (· ≠ p)).map (fun q => s!"{q}={ver k p q}"))))
+      let esc := fmtEsc (escapes acc.s.size s2 acc.s.log.length)
+      let ok := fmtBool (fpOrig n0 s2 == fp0)
+      let tOk := fmtBool ((fp s1.size fuel s2 t).toString == (fp s1.size fuel s1 t).toString)
+      let fresh := fmtBool (decide (acc.s.size ≤ t))
+      { acc with s := s2, results := acc.results.push .unit,
+                 outs := acc.outs.push s!"S:{fmtNats pars}:{(streamOps t pars val nsw).length}:{fresh}:{(s1.cls t).letter}:{esc}:{ok}{tOk}:{",".intercalate calls}" }
+    | _ => { acc with s := s1, results := acc.results.push .err, outs := acc.outs.push "e:::::" }
   | some (.gibbs a sweeps) =>
     -- `target()` then the conditioning stream; values vary with sweep and parameter
     let (s1, r) := acc.s.run (.cond a [])
